@@ -88,4 +88,92 @@ def NoRefBranches (D : List String) (bs : List (Expr × Block)) : Prop := ∀ x 
 def NoRefL (D : List String) (l : Last) : Prop := ∀ x ∈ D, l.refs x = false
 def NoRefB (D : List String) (b : Block) : Prop := ∀ x ∈ D, b.refs x = false
 
+/-! ### destructuring -/
+section
+set_option linter.unusedSimpArgs false
+variable {D : List String}
+theorem NoRefE.var {n} : NoRefE D (.var n) ↔ n ∉ D := by
+  simp only [NoRefE, NoRefEs, NoRefElifs, NoRefEntries, NoRefSegs, NoRefF, NoRefS, NoRefSs, NoRefBranches, NoRefL, NoRefB, Expr.refs, Expr.refsList, Expr.refsPairs, Entry.refsList, Seg.refsList, FnBody.refs, Stmt.refs, Stmt.refsBranches, Stmt.refsList, Last.refs, Block.refs, Bool.or_eq_false_iff] <;> grind
+theorem NoRefE.paren {e} : NoRefE D (.paren e) ↔ NoRefE D e := by
+  simp only [NoRefE, NoRefEs, NoRefElifs, NoRefEntries, NoRefSegs, NoRefF, NoRefS, NoRefSs, NoRefBranches, NoRefL, NoRefB, Expr.refs, Expr.refsList, Expr.refsPairs, Entry.refsList, Seg.refsList, FnBody.refs, Stmt.refs, Stmt.refsBranches, Stmt.refsList, Last.refs, Block.refs, Bool.or_eq_false_iff] <;> grind
+theorem NoRefE.un {op e} : NoRefE D (.un op e) ↔ NoRefE D e := by
+  simp only [NoRefE, NoRefEs, NoRefElifs, NoRefEntries, NoRefSegs, NoRefF, NoRefS, NoRefSs, NoRefBranches, NoRefL, NoRefB, Expr.refs, Expr.refsList, Expr.refsPairs, Entry.refsList, Seg.refsList, FnBody.refs, Stmt.refs, Stmt.refsBranches, Stmt.refsList, Last.refs, Block.refs, Bool.or_eq_false_iff] <;> grind
+theorem NoRefE.bin {op l r} : NoRefE D (.bin op l r) ↔ NoRefE D l ∧ NoRefE D r := by
+  simp only [NoRefE, NoRefEs, NoRefElifs, NoRefEntries, NoRefSegs, NoRefF, NoRefS, NoRefSs, NoRefBranches, NoRefL, NoRefB, Expr.refs, Expr.refsList, Expr.refsPairs, Entry.refsList, Seg.refsList, FnBody.refs, Stmt.refs, Stmt.refsBranches, Stmt.refsList, Last.refs, Block.refs, Bool.or_eq_false_iff] <;> grind
+theorem NoRefE.call {f m k args} : NoRefE D (.call f m k args) ↔ NoRefE D f ∧ NoRefEs D args := by
+  simp only [NoRefE, NoRefEs, NoRefElifs, NoRefEntries, NoRefSegs, NoRefF, NoRefS, NoRefSs, NoRefBranches, NoRefL, NoRefB, Expr.refs, Expr.refsList, Expr.refsPairs, Entry.refsList, Seg.refsList, FnBody.refs, Stmt.refs, Stmt.refsBranches, Stmt.refsList, Last.refs, Block.refs, Bool.or_eq_false_iff] <;> grind
+theorem NoRefE.field {e n} : NoRefE D (.field e n) ↔ NoRefE D e := by
+  simp only [NoRefE, NoRefEs, NoRefElifs, NoRefEntries, NoRefSegs, NoRefF, NoRefS, NoRefSs, NoRefBranches, NoRefL, NoRefB, Expr.refs, Expr.refsList, Expr.refsPairs, Entry.refsList, Seg.refsList, FnBody.refs, Stmt.refs, Stmt.refsBranches, Stmt.refsList, Last.refs, Block.refs, Bool.or_eq_false_iff] <;> grind
+theorem NoRefE.index {e k} : NoRefE D (.index e k) ↔ NoRefE D e ∧ NoRefE D k := by
+  simp only [NoRefE, NoRefEs, NoRefElifs, NoRefEntries, NoRefSegs, NoRefF, NoRefS, NoRefSs, NoRefBranches, NoRefL, NoRefB, Expr.refs, Expr.refsList, Expr.refsPairs, Entry.refsList, Seg.refsList, FnBody.refs, Stmt.refs, Stmt.refsBranches, Stmt.refsList, Last.refs, Block.refs, Bool.or_eq_false_iff] <;> grind
+theorem NoRefE.fn {f} : NoRefE D (.fn f) ↔ NoRefF D f := by
+  simp only [NoRefE, NoRefEs, NoRefElifs, NoRefEntries, NoRefSegs, NoRefF, NoRefS, NoRefSs, NoRefBranches, NoRefL, NoRefB, Expr.refs, Expr.refsList, Expr.refsPairs, Entry.refsList, Seg.refsList, FnBody.refs, Stmt.refs, Stmt.refsBranches, Stmt.refsList, Last.refs, Block.refs, Bool.or_eq_false_iff] <;> grind
+theorem NoRefE.table {es} : NoRefE D (.table es) ↔ NoRefEntries D es := by
+  simp only [NoRefE, NoRefEs, NoRefElifs, NoRefEntries, NoRefSegs, NoRefF, NoRefS, NoRefSs, NoRefBranches, NoRefL, NoRefB, Expr.refs, Expr.refsList, Expr.refsPairs, Entry.refsList, Seg.refsList, FnBody.refs, Stmt.refs, Stmt.refsBranches, Stmt.refsList, Last.refs, Block.refs, Bool.or_eq_false_iff] <;> grind
+theorem NoRefE.ifx {c t el e} : NoRefE D (.ifx c t el e) ↔ NoRefE D c ∧ NoRefE D t ∧ NoRefElifs D el ∧ NoRefE D e := by
+  simp only [NoRefE, NoRefEs, NoRefElifs, NoRefEntries, NoRefSegs, NoRefF, NoRefS, NoRefSs, NoRefBranches, NoRefL, NoRefB, Expr.refs, Expr.refsList, Expr.refsPairs, Entry.refsList, Seg.refsList, FnBody.refs, Stmt.refs, Stmt.refsBranches, Stmt.refsList, Last.refs, Block.refs, Bool.or_eq_false_iff] <;> grind
+theorem NoRefE.interp {segs} : NoRefE D (.interp segs) ↔ NoRefSegs D segs := by
+  simp only [NoRefE, NoRefEs, NoRefElifs, NoRefEntries, NoRefSegs, NoRefF, NoRefS, NoRefSs, NoRefBranches, NoRefL, NoRefB, Expr.refs, Expr.refsList, Expr.refsPairs, Entry.refsList, Seg.refsList, FnBody.refs, Stmt.refs, Stmt.refsBranches, Stmt.refsList, Last.refs, Block.refs, Bool.or_eq_false_iff] <;> grind
+theorem NoRefE.cast {e ty} : NoRefE D (.cast e ty) ↔ NoRefE D e := by
+  simp only [NoRefE, NoRefEs, NoRefElifs, NoRefEntries, NoRefSegs, NoRefF, NoRefS, NoRefSs, NoRefBranches, NoRefL, NoRefB, Expr.refs, Expr.refsList, Expr.refsPairs, Entry.refsList, Seg.refsList, FnBody.refs, Stmt.refs, Stmt.refsBranches, Stmt.refsList, Last.refs, Block.refs, Bool.or_eq_false_iff] <;> grind
+theorem NoRefE.inst {e tys} : NoRefE D (.inst e tys) ↔ NoRefE D e := by
+  simp only [NoRefE, NoRefEs, NoRefElifs, NoRefEntries, NoRefSegs, NoRefF, NoRefS, NoRefSs, NoRefBranches, NoRefL, NoRefB, Expr.refs, Expr.refsList, Expr.refsPairs, Entry.refsList, Seg.refsList, FnBody.refs, Stmt.refs, Stmt.refsBranches, Stmt.refsList, Last.refs, Block.refs, Bool.or_eq_false_iff] <;> grind
+theorem NoRefEs.cons {e es} : NoRefEs D (e :: es) ↔ NoRefE D e ∧ NoRefEs D es := by
+  simp only [NoRefE, NoRefEs, NoRefElifs, NoRefEntries, NoRefSegs, NoRefF, NoRefS, NoRefSs, NoRefBranches, NoRefL, NoRefB, Expr.refs, Expr.refsList, Expr.refsPairs, Entry.refsList, Seg.refsList, FnBody.refs, Stmt.refs, Stmt.refsBranches, Stmt.refsList, Last.refs, Block.refs, Bool.or_eq_false_iff] <;> grind
+theorem NoRefElifs.cons {c t es} : NoRefElifs D ((c, t) :: es) ↔ NoRefE D c ∧ NoRefE D t ∧ NoRefElifs D es := by
+  simp only [NoRefE, NoRefEs, NoRefElifs, NoRefEntries, NoRefSegs, NoRefF, NoRefS, NoRefSs, NoRefBranches, NoRefL, NoRefB, Expr.refs, Expr.refsList, Expr.refsPairs, Entry.refsList, Seg.refsList, FnBody.refs, Stmt.refs, Stmt.refsBranches, Stmt.refsList, Last.refs, Block.refs, Bool.or_eq_false_iff] <;> grind
+theorem NoRefEntries.pos {v es} : NoRefEntries D (.pos v :: es) ↔ NoRefE D v ∧ NoRefEntries D es := by
+  simp only [NoRefE, NoRefEs, NoRefElifs, NoRefEntries, NoRefSegs, NoRefF, NoRefS, NoRefSs, NoRefBranches, NoRefL, NoRefB, Expr.refs, Expr.refsList, Expr.refsPairs, Entry.refsList, Seg.refsList, FnBody.refs, Stmt.refs, Stmt.refsBranches, Stmt.refsList, Last.refs, Block.refs, Bool.or_eq_false_iff] <;> grind
+theorem NoRefEntries.named {k v es} : NoRefEntries D (.named k v :: es) ↔ NoRefE D v ∧ NoRefEntries D es := by
+  simp only [NoRefE, NoRefEs, NoRefElifs, NoRefEntries, NoRefSegs, NoRefF, NoRefS, NoRefSs, NoRefBranches, NoRefL, NoRefB, Expr.refs, Expr.refsList, Expr.refsPairs, Entry.refsList, Seg.refsList, FnBody.refs, Stmt.refs, Stmt.refsBranches, Stmt.refsList, Last.refs, Block.refs, Bool.or_eq_false_iff] <;> grind
+theorem NoRefEntries.keyed {k v es} : NoRefEntries D (.keyed k v :: es) ↔ NoRefE D k ∧ NoRefE D v ∧ NoRefEntries D es := by
+  simp only [NoRefE, NoRefEs, NoRefElifs, NoRefEntries, NoRefSegs, NoRefF, NoRefS, NoRefSs, NoRefBranches, NoRefL, NoRefB, Expr.refs, Expr.refsList, Expr.refsPairs, Entry.refsList, Seg.refsList, FnBody.refs, Stmt.refs, Stmt.refsBranches, Stmt.refsList, Last.refs, Block.refs, Bool.or_eq_false_iff] <;> grind
+theorem NoRefSegs.s {b es} : NoRefSegs D (.s b :: es) ↔ NoRefSegs D es := by
+  simp only [NoRefE, NoRefEs, NoRefElifs, NoRefEntries, NoRefSegs, NoRefF, NoRefS, NoRefSs, NoRefBranches, NoRefL, NoRefB, Expr.refs, Expr.refsList, Expr.refsPairs, Entry.refsList, Seg.refsList, FnBody.refs, Stmt.refs, Stmt.refsBranches, Stmt.refsList, Last.refs, Block.refs, Bool.or_eq_false_iff] <;> grind
+theorem NoRefSegs.v {e es} : NoRefSegs D (.v e :: es) ↔ NoRefE D e ∧ NoRefSegs D es := by
+  simp only [NoRefE, NoRefEs, NoRefElifs, NoRefEntries, NoRefSegs, NoRefF, NoRefS, NoRefSs, NoRefBranches, NoRefL, NoRefB, Expr.refs, Expr.refsList, Expr.refsPairs, Entry.refsList, Seg.refsList, FnBody.refs, Stmt.refs, Stmt.refsBranches, Stmt.refsList, Last.refs, Block.refs, Bool.or_eq_false_iff] <;> grind
+theorem NoRefF.mk {ps v vt r g a b} : NoRefF D (.mk ps v vt r g a b) ↔ NoRefB D b := by
+  simp only [NoRefE, NoRefEs, NoRefElifs, NoRefEntries, NoRefSegs, NoRefF, NoRefS, NoRefSs, NoRefBranches, NoRefL, NoRefB, Expr.refs, Expr.refsList, Expr.refsPairs, Entry.refsList, Seg.refsList, FnBody.refs, Stmt.refs, Stmt.refsBranches, Stmt.refsList, Last.refs, Block.refs, Bool.or_eq_false_iff] <;> grind
+theorem NoRefS.assign {ts vs} : NoRefS D (.assign ts vs) ↔ NoRefEs D ts ∧ NoRefEs D vs := by
+  simp only [NoRefE, NoRefEs, NoRefElifs, NoRefEntries, NoRefSegs, NoRefF, NoRefS, NoRefSs, NoRefBranches, NoRefL, NoRefB, Expr.refs, Expr.refsList, Expr.refsPairs, Entry.refsList, Seg.refsList, FnBody.refs, Stmt.refs, Stmt.refsBranches, Stmt.refsList, Last.refs, Block.refs, Bool.or_eq_false_iff] <;> grind
+theorem NoRefS.cassign {op t v} : NoRefS D (.cassign op t v) ↔ NoRefE D t ∧ NoRefE D v := by
+  simp only [NoRefE, NoRefEs, NoRefElifs, NoRefEntries, NoRefSegs, NoRefF, NoRefS, NoRefSs, NoRefBranches, NoRefL, NoRefB, Expr.refs, Expr.refsList, Expr.refsPairs, Entry.refsList, Seg.refsList, FnBody.refs, Stmt.refs, Stmt.refsBranches, Stmt.refsList, Last.refs, Block.refs, Bool.or_eq_false_iff] <;> grind
+theorem NoRefS.callStmt {c} : NoRefS D (.callStmt c) ↔ NoRefE D c := by
+  simp only [NoRefE, NoRefEs, NoRefElifs, NoRefEntries, NoRefSegs, NoRefF, NoRefS, NoRefSs, NoRefBranches, NoRefL, NoRefB, Expr.refs, Expr.refsList, Expr.refsPairs, Entry.refsList, Seg.refsList, FnBody.refs, Stmt.refs, Stmt.refsBranches, Stmt.refsList, Last.refs, Block.refs, Bool.or_eq_false_iff] <;> grind
+theorem NoRefS.doBlock {b} : NoRefS D (.doBlock b) ↔ NoRefB D b := by
+  simp only [NoRefE, NoRefEs, NoRefElifs, NoRefEntries, NoRefSegs, NoRefF, NoRefS, NoRefSs, NoRefBranches, NoRefL, NoRefB, Expr.refs, Expr.refsList, Expr.refsPairs, Entry.refsList, Seg.refsList, FnBody.refs, Stmt.refs, Stmt.refsBranches, Stmt.refsList, Last.refs, Block.refs, Bool.or_eq_false_iff] <;> grind
+theorem NoRefS.functionNil {m f} : NoRefS D (.function [] m f) ↔ NoRefF D f := by
+  simp only [NoRefE, NoRefEs, NoRefElifs, NoRefEntries, NoRefSegs, NoRefF, NoRefS, NoRefSs, NoRefBranches, NoRefL, NoRefB, Expr.refs, Expr.refsList, Expr.refsPairs, Entry.refsList, Seg.refsList, FnBody.refs, Stmt.refs, Stmt.refsBranches, Stmt.refsList, Last.refs, Block.refs, Bool.or_eq_false_iff] <;> grind
+theorem NoRefS.functionCons {root path m f} : NoRefS D (.function (root :: path) m f) ↔ root ∉ D ∧ NoRefF D f := by
+  simp only [NoRefE, NoRefEs, NoRefElifs, NoRefEntries, NoRefSegs, NoRefF, NoRefS, NoRefSs, NoRefBranches, NoRefL, NoRefB, Expr.refs, Expr.refsList, Expr.refsPairs, Entry.refsList, Seg.refsList, FnBody.refs, Stmt.refs, Stmt.refsBranches, Stmt.refsList, Last.refs, Block.refs, Bool.or_eq_false_iff] <;> grind
+theorem NoRefS.gfor {ns vs b} : NoRefS D (.gfor ns vs b) ↔ NoRefEs D vs ∧ NoRefB D b := by
+  simp only [NoRefE, NoRefEs, NoRefElifs, NoRefEntries, NoRefSegs, NoRefF, NoRefS, NoRefSs, NoRefBranches, NoRefL, NoRefB, Expr.refs, Expr.refsList, Expr.refsPairs, Entry.refsList, Seg.refsList, FnBody.refs, Stmt.refs, Stmt.refsBranches, Stmt.refsList, Last.refs, Block.refs, Bool.or_eq_false_iff] <;> grind
+theorem NoRefS.nforNone {n a b body} : NoRefS D (.nfor n a b none body) ↔ NoRefE D a ∧ NoRefE D b ∧ NoRefB D body := by
+  simp only [NoRefE, NoRefEs, NoRefElifs, NoRefEntries, NoRefSegs, NoRefF, NoRefS, NoRefSs, NoRefBranches, NoRefL, NoRefB, Expr.refs, Expr.refsList, Expr.refsPairs, Entry.refsList, Seg.refsList, FnBody.refs, Stmt.refs, Stmt.refsBranches, Stmt.refsList, Last.refs, Block.refs, Bool.or_eq_false_iff] <;> grind
+theorem NoRefS.nforSome {n a b st body} : NoRefS D (.nfor n a b (some st) body) ↔ NoRefE D a ∧ NoRefE D b ∧ NoRefE D st ∧ NoRefB D body := by
+  simp only [NoRefE, NoRefEs, NoRefElifs, NoRefEntries, NoRefSegs, NoRefF, NoRefS, NoRefSs, NoRefBranches, NoRefL, NoRefB, Expr.refs, Expr.refsList, Expr.refsPairs, Entry.refsList, Seg.refsList, FnBody.refs, Stmt.refs, Stmt.refsBranches, Stmt.refsList, Last.refs, Block.refs, Bool.or_eq_false_iff] <;> grind
+theorem NoRefS.ifsNone {brs} : NoRefS D (.ifs brs none) ↔ NoRefBranches D brs := by
+  simp only [NoRefE, NoRefEs, NoRefElifs, NoRefEntries, NoRefSegs, NoRefF, NoRefS, NoRefSs, NoRefBranches, NoRefL, NoRefB, Expr.refs, Expr.refsList, Expr.refsPairs, Entry.refsList, Seg.refsList, FnBody.refs, Stmt.refs, Stmt.refsBranches, Stmt.refsList, Last.refs, Block.refs, Bool.or_eq_false_iff] <;> grind
+theorem NoRefS.ifsSome {brs b} : NoRefS D (.ifs brs (some b)) ↔ NoRefBranches D brs ∧ NoRefB D b := by
+  simp only [NoRefE, NoRefEs, NoRefElifs, NoRefEntries, NoRefSegs, NoRefF, NoRefS, NoRefSs, NoRefBranches, NoRefL, NoRefB, Expr.refs, Expr.refsList, Expr.refsPairs, Entry.refsList, Seg.refsList, FnBody.refs, Stmt.refs, Stmt.refsBranches, Stmt.refsList, Last.refs, Block.refs, Bool.or_eq_false_iff] <;> grind
+theorem NoRefS.localAssign {k ns vs} : NoRefS D (.localAssign k ns vs) ↔ NoRefEs D vs := by
+  simp only [NoRefE, NoRefEs, NoRefElifs, NoRefEntries, NoRefSegs, NoRefF, NoRefS, NoRefSs, NoRefBranches, NoRefL, NoRefB, Expr.refs, Expr.refsList, Expr.refsPairs, Entry.refsList, Seg.refsList, FnBody.refs, Stmt.refs, Stmt.refsBranches, Stmt.refsList, Last.refs, Block.refs, Bool.or_eq_false_iff] <;> grind
+theorem NoRefS.localFn {k n f} : NoRefS D (.localFn k n f) ↔ NoRefF D f := by
+  simp only [NoRefE, NoRefEs, NoRefElifs, NoRefEntries, NoRefSegs, NoRefF, NoRefS, NoRefSs, NoRefBranches, NoRefL, NoRefB, Expr.refs, Expr.refsList, Expr.refsPairs, Entry.refsList, Seg.refsList, FnBody.refs, Stmt.refs, Stmt.refsBranches, Stmt.refsList, Last.refs, Block.refs, Bool.or_eq_false_iff] <;> grind
+theorem NoRefS.repeat_ {b c} : NoRefS D (.repeat_ b c) ↔ NoRefB D b ∧ NoRefE D c := by
+  simp only [NoRefE, NoRefEs, NoRefElifs, NoRefEntries, NoRefSegs, NoRefF, NoRefS, NoRefSs, NoRefBranches, NoRefL, NoRefB, Expr.refs, Expr.refsList, Expr.refsPairs, Entry.refsList, Seg.refsList, FnBody.refs, Stmt.refs, Stmt.refsBranches, Stmt.refsList, Last.refs, Block.refs, Bool.or_eq_false_iff] <;> grind
+theorem NoRefS.while_ {c b} : NoRefS D (.while_ c b) ↔ NoRefE D c ∧ NoRefB D b := by
+  simp only [NoRefE, NoRefEs, NoRefElifs, NoRefEntries, NoRefSegs, NoRefF, NoRefS, NoRefSs, NoRefBranches, NoRefL, NoRefB, Expr.refs, Expr.refsList, Expr.refsPairs, Entry.refsList, Seg.refsList, FnBody.refs, Stmt.refs, Stmt.refsBranches, Stmt.refsList, Last.refs, Block.refs, Bool.or_eq_false_iff] <;> grind
+theorem NoRefBranches.cons {c b es} : NoRefBranches D ((c, b) :: es) ↔ NoRefE D c ∧ NoRefB D b ∧ NoRefBranches D es := by
+  simp only [NoRefE, NoRefEs, NoRefElifs, NoRefEntries, NoRefSegs, NoRefF, NoRefS, NoRefSs, NoRefBranches, NoRefL, NoRefB, Expr.refs, Expr.refsList, Expr.refsPairs, Entry.refsList, Seg.refsList, FnBody.refs, Stmt.refs, Stmt.refsBranches, Stmt.refsList, Last.refs, Block.refs, Bool.or_eq_false_iff] <;> grind
+theorem NoRefSs.cons {x xs} : NoRefSs D (x :: xs) ↔ NoRefS D x ∧ NoRefSs D xs := by
+  simp only [NoRefE, NoRefEs, NoRefElifs, NoRefEntries, NoRefSegs, NoRefF, NoRefS, NoRefSs, NoRefBranches, NoRefL, NoRefB, Expr.refs, Expr.refsList, Expr.refsPairs, Entry.refsList, Seg.refsList, FnBody.refs, Stmt.refs, Stmt.refsBranches, Stmt.refsList, Last.refs, Block.refs, Bool.or_eq_false_iff] <;> grind
+theorem NoRefL.ret {es} : NoRefL D (.ret es) ↔ NoRefEs D es := by
+  simp only [NoRefE, NoRefEs, NoRefElifs, NoRefEntries, NoRefSegs, NoRefF, NoRefS, NoRefSs, NoRefBranches, NoRefL, NoRefB, Expr.refs, Expr.refsList, Expr.refsPairs, Entry.refsList, Seg.refsList, FnBody.refs, Stmt.refs, Stmt.refsBranches, Stmt.refsList, Last.refs, Block.refs, Bool.or_eq_false_iff] <;> grind
+theorem NoRefB.none {ss} : NoRefB D (.mk ss none) ↔ NoRefSs D ss := by
+  simp only [NoRefE, NoRefEs, NoRefElifs, NoRefEntries, NoRefSegs, NoRefF, NoRefS, NoRefSs, NoRefBranches, NoRefL, NoRefB, Expr.refs, Expr.refsList, Expr.refsPairs, Entry.refsList, Seg.refsList, FnBody.refs, Stmt.refs, Stmt.refsBranches, Stmt.refsList, Last.refs, Block.refs, Bool.or_eq_false_iff] <;> grind
+theorem NoRefB.some {ss l} : NoRefB D (.mk ss (some l)) ↔ NoRefSs D ss ∧ NoRefL D l := by
+  simp only [NoRefE, NoRefEs, NoRefElifs, NoRefEntries, NoRefSegs, NoRefF, NoRefS, NoRefSs, NoRefBranches, NoRefL, NoRefB, Expr.refs, Expr.refsList, Expr.refsPairs, Entry.refsList, Seg.refsList, FnBody.refs, Stmt.refs, Stmt.refsBranches, Stmt.refsList, Last.refs, Block.refs, Bool.or_eq_false_iff] <;> grind
+end
+
 end DarkluaModel
